@@ -39,7 +39,7 @@ vars == <<engine, status, down, boom, models, ebFail, ebOpen, rq, gauge, cnt, sc
 None == "none"
 TokenLen == 11   \* bytes of one body token "[e1:1:0000]"
 PreConn   == {"reset_pre"}                       \* connection-level failure, nothing delivered
-PreOther  == {"close_pre", "garbage"}            \* nothing delivered, not classed as connection error
+PreOther  == {"close_pre", "garbage", "st099"}   \* st099: a status line net/http cannot relay ("HTTP/1.1 099 Odd")            \* nothing delivered, not classed as connection error
 Post      == {"hdr_then_reset", "reset_after", "close_after"}   \* response started, then the backend died
 Answered  == {"ok", "http", "http_big", "http_alt", "http_text", "http_empty"}   \* complete response (any status)
 Abandoned == {"cabort"}                          \* a slow, healthy answer the CLIENT walks away from after its first token
